@@ -1265,8 +1265,19 @@ fn gen_sampled(seed: u64, i: u64) -> CliCase {
             CliCase::Systematic { alist: m.to_alist() }
         }
         3 | 4 => {
-            let k = 1 + g.below(8) as usize;
-            let r = 1 + g.below(6) as usize;
+            let mut k = 1 + g.below(8) as usize;
+            let mut r = 1 + g.below(6) as usize;
+            // one case in three: the codeword length is a multiple of a drawn pattern length
+            // 2..=12 (lengths 7, 9, 11 with n = 14, 35, 63, ... are where a size computed through a
+            // floating-point rate comes out one short, seeded change C20-r4-2)
+            if g.chance(1, 3) {
+                let p = 2 + g.below(11) as usize;
+                let n = p * (1 + g.below(6) as usize);
+                if n >= 3 {
+                    r = 1 + g.below((n as u64 - 1).min(10)) as usize;
+                    k = n - r;
+                }
+            }
             let tail = if g.chance(1, 2) { Tail::Staircase } else { Tail::Invertible };
             let m = random_code(&mut g, k, r, tail, 1);
             let n = k + r;
